@@ -13,7 +13,7 @@ Only a *tame* grammar is modelled — on it `Ref` (which clears RawPath/RawFragm
     any other character is printed as Go's `escape` prints it (per UTF-8 byte, upper-case hex).
 
 Outside the grammar the answer is `oom` (out of model), except for the two failures that are certain:
-a control character anywhere, a malformed `%` escape (no query present).
+a control character before the `#`, a malformed `%` escape (no query present).
 -/
 import SpecModel.Json
 
@@ -124,10 +124,12 @@ def splitAuthority (u : List Char) : Option (List Char × List Char) :=
 
 def urlString (s : String) : UrlRes :=
   let cs := s.toList
-  if cs.any (fun c => c.toNat < 0x20 || c.toNat == 0x7f) then .err
+  let u := cs.takeWhile (· != '#')
+  let frag := (cs.dropWhile (· != '#')).drop 1
+  -- `url.Parse` cuts the fragment off first and rejects control characters in what is left only; in the
+  -- fragment they are escaped like any other character
+  if u.any (fun c => c.toNat < 0x20 || c.toNat == 0x7f) then .err
   else
-    let u := cs.takeWhile (· != '#')
-    let frag := (cs.dropWhile (· != '#')).drop 1
     if u.contains '?' then .oom
     else if badEscape u || badEscape frag then .err
     else
